@@ -2,12 +2,17 @@
 
 Runner: direct drive of the real HTTPStream / WSStream (recording `send`, recording logger), every sequence over the
 ASGI send alphabet with valid and invalid payloads; each step is compared with the Lean model and judged by an
-independent reference automaton of the ASGI specification (below, in Python)."""
+independent reference automaton of the ASGI specification (below, in Python).
+Family `wire`: the push and early-hint messages again with the real protocol object under the stream (H2Protocol: server push,
+PUSH_PROMISE, the pushed stream; H11Protocol on HTTP/1.0 / 1.1, where neither exists) and an independent client parser reading
+the bytes: what is raised into the application, what each message puts on the wire, and the response that follows."""
 from __future__ import annotations
 
 import itertools
 from typing import Any, Dict, List, Optional, Tuple
 
+from ..core import clients as C
+from ..core import h2raw as RH
 from ..core import streams as S
 from ..core.framework import Ctx
 
@@ -17,7 +22,7 @@ SPEC = {
     "technique": "Lean 4 theorems over Except-valued transducer models of HTTPStream.app_send / WSStream.app_send (reject = no-op, one final head, end once, no CTL bytes — for arbitrary message sequences, by budget/potential induction) + differential execution of model and real stream objects on every short sequence of the ASGI send alphabet",
     "level_text": "Proved in Lean for ARBITRARY message sequences (any length, any payloads): a message in a state the reference automaton forbids is rejected with the state and the wire untouched; an invalid payload (non-bytes or pseudo header names/values, CR/LF/NUL, non-str push path or text frame) is rejected before anything is emitted; at most one final response head, at most one response start of ANY status (an accepted http.response.start with an interim status 1xx moves the request to RESPONSE exactly like a final one, so a second start raises - for the model, and for the statement order of the start branch read off the source, in which a conditional state assignment is not a recognised shape) and one end-of-body per request; nothing follows the end of the response; no CR, LF or NUL of an application header reaches the protocol layer.  The HTTP reference automaton keeps its own state (it does not follow the implementation's): any accepted start is the response start.  The model is tied to the code by running every sequence up to length 3 (thorough: 4, sampled 5) over the alphabet x payload variants on the real HTTPStream and WSStream objects, step by step (events, exception class, state); the WebSocket sequences are run against every kind of handshake (subprotocols offered, one offered, an empty Sec-WebSocket-Protocol header, no such header) and the guard that decides which subprotocol of websocket.accept is refused is regenerated from the source (HC/Extracted/WsGuards.lean) and proved to be the model's.",
     "level_note": "Trusted: Lean kernel; hand-written models HC/Stream/{Http,Ws}.lean tied by differential testing; extracted suppress_body / version sets; wsproto's LocalProtocolError conditions (connection-state machine) modelled and sampled; h11's own header validation is library behaviour.  'Raises' means any exception out of send().  http.response.trailers before the response start is treated as unspecified by the monitor (the code accepts it on HTTP/2; see DESIGN.md).",
-    "rule": "exhaustive enumeration of sequences over the per-protocol alphabet (message type x payload variant) - WebSocket: x handshake kind (what the client offered as subprotocols) -, quick: all of length <= 2 and a sample of length 3; thorough: all <= 3 and samples of 4-5; distinct = distinct sequences of (type, payload-class); non-trivial = contains at least one message that the reference automaton rejects",
+    "rule": "exhaustive enumeration of sequences over the per-protocol alphabet (message type x payload variant) - WebSocket: x handshake kind (what the client offered as subprotocols) -, quick: all of length <= 2 and a sample of length 3; thorough: all <= 3 and samples of 4-5; distinct = distinct sequences of (type, payload-class); non-trivial = contains at least one message that the reference automaton rejects; family wire (the real HTTPStream under the real H2Protocol / H11Protocol, an independent client parser on the other side): state of the response (before the start, started, a chunk sent, complete, trailers outstanding) x push / early-hint message (every payload variant; singly, an invalid one between valid ones) x what the client said about push x sender (a client stream / a pushed stream) on HTTP/2, and x {HTTP/1.0, HTTP/1.1} x {message, InformationalResponse event handed to the protocol} x {a second request follows} on HTTP/1",
     "trusted": ["wsproto Connection.send state conditions (OPEN / *_CLOSING) as modelled in HC.Stream.Ws.connSend"],
     "partial": ["http trailers-before-start (HTTP/2+) is outside the reject_iff theorem: the code deliberately accepts it (trailers-only response)"],
     "assumptions": ["header lists are lists of 2-tuples; messages are dicts (other shapes are outside the ASGI send alphabet)"],
@@ -64,12 +69,19 @@ def http_alphabet(version: str) -> List[Tuple[str, dict]]:
         ("push:ok", {"type": "http.response.push", "path": "/p", "headers": OKH}),
         ("push:bytes_path", {"type": "http.response.push", "path": b"/p", "headers": OKH}),
         ("push:pseudo", {"type": "http.response.push", "path": "/p", "headers": BAD_HEADERS["pseudo"]}),
+        ("push:nohdr", {"type": "http.response.push", "path": "/p", "headers": []}),
+        ("push:two", {"type": "http.response.push", "path": "/q?x=1", "headers": OKH + [(b"Accept", b"text/css")]}),
         ("hint:ok", {"type": "http.response.early_hint", "links": [b"</s.css>; rel=preload"]}),
         ("hint:str", {"type": "http.response.early_hint", "links": ["</s.css>"]}),
         ("hint:crlf", {"type": "http.response.early_hint", "links": [b"</s.css>\r\nx: y"]}),
         ("unknown", {"type": "http.response.zerocopysend"}),
         ("ws.send", {"type": "websocket.send", "text": "x"}),
     ]
+    if version == "2":
+        # the headers of a push are the application's: every kind of invalid name / value (the HTTP/1 alphabet has the three above:
+        # there a push is refused for its version before its payload is looked at)
+        a += [(f"push:{k}", {"type": "http.response.push", "path": "/p", "headers": h}) for k, h in BAD_HEADERS.items() if k != "pseudo"]
+        a += [("push:int_path", {"type": "http.response.push", "path": 7, "headers": OKH}), ("push:no_path", {"type": "http.response.push", "headers": OKH})]
     return a
 
 
@@ -383,6 +395,447 @@ def check_ws(ctx: Ctx, version: str, seqs: List[List[Tuple[str, dict]]], offer: 
                 ctx.disagree("stream.ws", case, model[i], impl)
 
 
+# --------------------------------------------------------------------------------------------------------------
+# the wire: the real HTTPStream under the real H2Protocol / H11Protocol, an independent client parser on the other side
+# --------------------------------------------------------------------------------------------------------------
+# Set to False to leave the family out.
+WIRE_FAMILY = True
+# `http.response.push` whose header list passes hypercorn's own validation but is refused by h2's outbound validation while
+# h2 is already encoding the block (e.g. `te: gzip`): FINDING reported in round 6 (the refusal is swallowed, nothing is written,
+# but the HPACK encoder has run: the next header block of the connection is undecodable at the client).  Off until judged.
+PUSH_H2_REFUSED_HEADERS = False
+# `http.response.early_hint` sent by the application of a PUSHED stream before its response (the scope of a pushed request offers the
+# extension): h2 refuses informational headers on a reserved stream (swallowed) and closes the stream, the pushed response that
+# follows is dropped without a word, the promise is never kept nor reset.  FINDING reported in round 6.  Off until judged.
+HINT_ON_PUSHED_STREAM = False
+H2_REFUSED_PUSHES = [("push:te_gzip", {"type": "http.response.push", "path": "/p", "headers": [(b"te", b"gzip")]}),
+                     ("push:new_then_te_gzip", {"type": "http.response.push", "path": "/p", "headers": [(b"x-new", b"v"), (b"te", b"gzip")]})]
+SERVER_HEADERS = ("date", "server", "alt-svc")
+WIRE_REQ_HEADERS = [(b"host", b"x"), (b"te", b"trailers")]
+INFO_EVENT = {"event": "info", "status": 103, "headers": [(b"link", b"</s.css>; rel=preload")]}
+
+
+def _msg(cls: str, version: str) -> Tuple[str, dict]:
+    return cls, dict(http_alphabet(version) + (H2_REFUSED_PUSHES if version == "2" else []))[cls]
+
+
+def _completion(state: str, version: str, trailers: bool) -> List[Tuple[str, dict]]:
+    """the valid messages that complete the response from the state the application is in"""
+    if state == "REQUEST":
+        return [_msg("start:ok", version), _msg("body:final", version)]
+    if state == "RESPONSE":
+        return [_msg("body:final", version)] + ([_msg("trailers:final", version)] if trailers and version == "2" else [])
+    if state == "TRAILERS":
+        return [_msg("trailers:final", version)] if version == "2" else []
+    return []
+
+
+async def drive_h2_wire(seq: List[dict], enable_push: Optional[bool], on_pushed: bool) -> dict:
+    """one GET (host x, te: trailers) on stream 1 of a real H2Protocol; `seq` = messages the application of stream 1 sends
+    (`on_pushed`: stream 1 first pushes /base, the messages are then sent by the application of the PUSHED stream 2).  Per
+    message: the exception raised into the application, the bytes written and what the client parsed out of them"""
+    import asyncio
+    from hypercorn.asyncio.worker_context import WorkerContext
+    from hypercorn.config import Config
+    from hypercorn.events import RawData
+    from hypercorn.protocol.h2 import H2Protocol
+    from hypercorn.typing import ConnectionState
+    config = Config()
+    config._log = S.RecLog([])  # type: ignore
+    sends: Dict[int, Any] = {}
+    streams: Dict[int, Any] = {}
+    scopes: Dict[int, dict] = {}
+    order: List[int] = []
+    bg: List[Any] = []
+    out = bytearray()
+
+    class TG:
+        async def spawn_app(self, app, config_, scope, send):
+            sid = send.__self__.stream_id
+            order.append(sid)
+            sends[sid], streams[sid] = send, send.__self__
+            scopes[sid] = {"method": scope["method"], "raw_path": bytes(scope["raw_path"]).decode("latin1"), "headers": S.headers_json(scope["headers"])}
+
+            async def app_put(message):
+                pass
+            return app_put
+
+        def spawn(self, func, *a):
+            bg.append(asyncio.ensure_future(func(*a)))
+
+    async def send(ev):
+        if isinstance(ev, RawData):
+            out.extend(ev.data)
+
+    cl = RH.RogueH2(enable_push=enable_push)
+    steps: List[dict] = []
+    try:
+        proto = H2Protocol(object(), config, WorkerContext(None), TG(), ConnectionState({}), False, ("127.0.0.1", 1), ("10.0.0.1", 80), send)
+
+        async def settle() -> int:
+            for _ in range(10):
+                await asyncio.sleep(0)
+            n = len(out)
+            cl.feed(bytes(out))
+            del out[:]
+            return n
+
+        await proto.initiate()
+        await proto.handle(RawData(cl.out()))
+        await settle()
+        cl.request(C.h2_headers("GET", "/", extra=[(b"te", b"trailers")]))
+        await proto.handle(RawData(cl.out()))
+        await settle()
+        target = 1
+        if on_pushed:
+            await sends[1]({"type": "http.response.push", "path": "/base", "headers": list(WIRE_REQ_HEADERS[1:])})
+            await settle()
+            target = 2
+        for m in seq:
+            if target not in sends:
+                break
+            n_fr, n_pr, n_inst = len(cl.frames), len(cl.promises), len(order)
+            err = None
+            try:
+                await sends[target](dict(m))
+            except Exception as e:  # noqa - raised into the application
+                err = type(e).__name__
+            wrote = await settle()
+            steps.append({"error": err, "state": streams[target].state.name, "wrote": wrote, "frames": [list(f) for f in cl.frames[n_fr:]],
+                          "promises": [{"parent": p_["parent"], "promised": p_["promised"], "headers": S.headers_json(p_["headers"])} for p_ in cl.promises[n_pr:]],
+                          "instances": order[n_inst:], "parse_error": cl.parse_error})
+        # every other application instance (stream 1 when the pushed stream was the subject, every pushed stream) answers
+        for sid in list(order):
+            if sid != target and streams[sid].state.name == "REQUEST":
+                try:
+                    await sends[sid]({"type": "http.response.start", "status": 200, "headers": [(b"x-sid", b"%d" % sid)]})
+                    await sends[sid]({"type": "http.response.body", "body": b"sid%d" % sid})
+                except Exception:  # noqa - judged at the client
+                    pass
+                await settle()
+        await settle()
+    finally:
+        for t_ in bg:
+            t_.cancel()
+        for t_ in bg:
+            try:
+                await t_
+            except BaseException:  # noqa
+                pass
+    return {"steps": steps, "target": target, "instances": order, "scopes": scopes, "parse_error": cl.parse_error,
+            "streams": {k: dict(v) for k, v in cl.streams.items()},
+            "heads": {k: [[e, S.headers_json(hs)] for e, hs in v] for k, v in cl.heads.items()},
+            "promises": [{"parent": p_["parent"], "promised": p_["promised"], "headers": S.headers_json(p_["headers"])} for p_ in cl.promises]}
+
+
+async def drive_h1_wire(version: str, ops: List[dict], second: bool) -> dict:
+    """one GET on a real H11Protocol (HTTP/1.0 or 1.1); ops: {"send": message} = the application sends it, {"event": "info", …} =
+    an `InformationalResponse` event (what an HTTP stream emits for early hints) is handed to the protocol's `stream_send` as
+    the stream would; `second`: when the response is complete a second request follows on the connection (1.1) and is answered"""
+    import asyncio
+    from hypercorn.asyncio.worker_context import WorkerContext
+    from hypercorn.config import Config
+    from hypercorn.events import Closed, RawData
+    from hypercorn.protocol.events import InformationalResponse
+    from hypercorn.protocol.h11 import H11Protocol
+    from hypercorn.typing import ConnectionState
+    config = Config()
+    config._log = S.RecLog([])  # type: ignore
+    apps: List[Any] = []
+    out = bytearray()
+    closed = [False]
+    tasks: List[Any] = []
+
+    class TG:
+        async def spawn_app(self, app, config_, scope, send):
+            apps.append(send.__self__)
+
+            async def app_put(message):
+                pass
+            return app_put
+
+        def spawn(self, func, *a):
+            tasks.append(asyncio.ensure_future(func(*a)))
+
+    async def send(ev):
+        if isinstance(ev, RawData):
+            out.extend(ev.data)
+        elif isinstance(ev, Closed):
+            closed[0] = True
+
+    async def settle() -> None:
+        for _ in range(8):
+            await asyncio.sleep(0)
+
+    steps: List[dict] = []
+    try:
+        proto = H11Protocol(object(), config, WorkerContext(None), TG(), ConnectionState({}), False, ("127.0.0.1", 1), ("10.0.0.1", 80), send)
+        req = b"GET / HTTP/" + version.encode() + b"\r\nhost: x\r\nte: trailers\r\n\r\n"
+        tasks.append(asyncio.ensure_future(proto.handle(RawData(req))))
+        await settle()
+        stream = apps[0]
+        for op in ops:
+            before = len(out)
+            err = None
+            try:
+                if "send" in op:
+                    await stream.app_send(dict(op["send"]))
+                else:
+                    await proto.stream_send(InformationalResponse(stream_id=stream.stream_id, headers=list(op["headers"]), status_code=op["status"]))
+            except Exception as e:  # noqa
+                err = type(e).__name__
+            await settle()
+            steps.append({"error": err, "state": stream.state.name, "wrote": len(out) - before, "up_closed": closed[0]})
+        n_first = len(out)
+        second_done = False
+        if second and not closed[0] and stream.state.name == "CLOSED":
+            tasks.append(asyncio.ensure_future(proto.handle(RawData(b"GET /second HTTP/1.1\r\nhost: x\r\n\r\n"))))
+            await settle()
+            if len(apps) > 1:
+                await apps[1].app_send({"type": "http.response.start", "status": 200, "headers": [(b"x-second", b"1")]})
+                await apps[1].app_send({"type": "http.response.body", "body": b"second"})
+                await settle()
+                second_done = True
+    finally:
+        for t_ in tasks:
+            t_.cancel()
+        for t_ in tasks:
+            try:
+                await t_
+            except BaseException:  # noqa
+                pass
+    return {"steps": steps, "out": bytes(out), "first_len": n_first, "second": second_done, "up_closed": closed[0], "instances": len(apps)}
+
+WIRE_PRES = {"REQUEST": [], "RESPONSE": ["start:ok"], "RESPONSE+chunk": ["start:ok", "body:more"], "CLOSED": ["start:ok", "body:final"],
+             "TRAILERS": ["start:trailers", "body:final"]}
+WIRE_BODY = {"REQUEST": b"abc", "RESPONSE": b"abc", "RESPONSE+chunk": b"xabc", "CLOSED": b"abc", "TRAILERS": b"abc"}
+
+
+def gen_wire(ctx: Ctx) -> List[dict]:
+    rng = ctx.rng
+    cases: List[dict] = []
+    a2 = [k for k, _ in http_alphabet("2")]
+    focus2 = [k for k in a2 if k.startswith(("push:", "hint:"))] + ([k for k, _ in H2_REFUSED_PUSHES] if PUSH_H2_REFUSED_HEADERS else [])
+    bad2 = [k for k in focus2 if k.startswith("push:") and k not in ("push:ok", "push:nohdr", "push:two")]
+    for pre in WIRE_PRES:
+        for f in focus2:
+            for enable, on_pushed in ((None, False), (False, False), (None, True)):
+                if (enable is False or on_pushed) and not (ctx.thorough or f in ("push:ok", "push:two", "hint:ok") or (len(cases) + len(f)) % 3 == 0):
+                    continue
+                cases.append({"family": "wire", "version": "2", "pre": pre, "focus": [f], "enable_push": enable, "on_pushed": on_pushed})
+        # an invalid push next to valid ones: it must neither stop the later one nor undo the earlier one
+        for i, b in enumerate(bad2):
+            if ctx.thorough or (i + len(pre)) % 2 == 0:
+                cases.append({"family": "wire", "version": "2", "pre": pre, "focus": [b, "push:ok"] if i % 2 else ["push:ok", b, "push:two"], "enable_push": None,
+                              "on_pushed": False})
+        cases.append({"family": "wire", "version": "2", "pre": pre, "focus": ["push:ok", "push:two", "push:nohdr"], "enable_push": True, "on_pushed": False})
+        cases.append({"family": "wire", "version": "2", "pre": pre, "focus": ["hint:ok", "push:ok", "hint:crlf", "hint:ok"], "enable_push": None, "on_pushed": False})
+    for _ in range(ctx.budget(60, 1500)):
+        on_pushed = rng.random() < 0.25
+        cases.append({"family": "wire", "version": "2", "pre": rng.choice(list(WIRE_PRES)), "focus": [rng.choice(focus2) for _ in range(rng.choice([2, 3, 4]))],
+                      "enable_push": rng.choice([None, None, True] + ([] if on_pushed else [False])), "on_pushed": on_pushed})
+    if not HINT_ON_PUSHED_STREAM:
+        # an early hint the stream accepts (state REQUEST) from the application of a pushed stream: see the switch
+        for c in cases:
+            if c["on_pushed"] and c["pre"] == "REQUEST":
+                c["focus"] = [f for f in c["focus"] if f != "hint:ok"] or ["push:ok"]
+    # HTTP/1.0 and 1.1: early hints and pushes do not exist there; the InformationalResponse EVENT is ignored by the protocol
+    focus1 = ["hint:ok", "hint:str", "hint:crlf", "push:ok", "push:bytes_path", "push:pseudo", "event:info"]
+    for version in ("1.0", "1.1"):
+        for pre in ("REQUEST", "RESPONSE", "RESPONSE+chunk", "CLOSED"):
+            for f in focus1:
+                for second in ((False, True) if version == "1.1" and f in ("hint:ok", "event:info", "push:ok") else (False,)):
+                    cases.append({"family": "wire", "version": version, "pre": pre, "focus": [f], "second": second})
+            cases.append({"family": "wire", "version": version, "pre": pre, "focus": ["event:info", "event:info"], "second": version == "1.1"})
+            cases.append({"family": "wire", "version": version, "pre": pre, "focus": ["hint:ok", "event:info", "push:ok"], "second": False})
+        for _ in range(ctx.budget(10, 300)):
+            cases.append({"family": "wire", "version": version, "pre": rng.choice(["REQUEST", "RESPONSE", "RESPONSE+chunk", "CLOSED"]),
+                          "focus": [rng.choice(focus1) for _ in range(rng.choice([2, 3]))], "second": version == "1.1" and rng.random() < 0.5})
+    return cases
+
+
+def _app_headers_then_server(got: List[List[str]], app: List[List[str]], allow: Tuple[str, ...] = SERVER_HEADERS) -> bool:
+    """the application's headers in order, followed only by the server's own"""
+    return got[:len(app)] == app and all(n.lower() in allow for n, _ in got[len(app):])
+
+
+def check_wire(ctx: Ctx, cases: List[dict]) -> None:
+    h2cases = [c for c in cases if c["version"] == "2"]
+    h1cases = [c for c in cases if c["version"] != "2"]
+    runs = []
+    for case in h2cases:
+        trailers = case["pre"] == "TRAILERS"
+        seq = [_msg(k, "2") for k in WIRE_PRES[case["pre"]] + case["focus"]]
+        st = {"REQUEST": "REQUEST", "RESPONSE": "RESPONSE", "RESPONSE+chunk": "RESPONSE", "CLOSED": "CLOSED", "TRAILERS": "TRAILERS"}[case["pre"]]
+        seq += _completion(st, "2", trailers)
+        res = S.run(drive_h2_wire([m for _, m in seq], case.get("enable_push"), bool(case.get("on_pushed"))))
+        tscope = res["scopes"].get(res["target"]) or {"headers": []}
+        init = {"method": "GET", "version": "2", "scheme": "http", "headers": [(n.encode("latin1"), v.encode("latin1")) for n, v in tscope["headers"]]}
+        runs.append((case, seq, res, init))
+    model = ctx.model([S.http_model_req(init, [{"send": m} for _, m in seq]) for _, seq, _, init in runs])
+    for i, (case, seq, res, init) in enumerate(runs):
+        ctx.evaluations += 1
+        ctx.count("wire.2.context", f"{case['pre']}{'/pushed stream' if case.get('on_pushed') else ''}/client push {case.get('enable_push')}")
+        sig0 = {"family": "wire", "version": "2"}
+        mo = model[i].get("ok") if model is not None else None
+        if len(res["steps"]) != len(seq):
+            ctx.violation("wire_session_incomplete", case, {"steps": len(res["steps"]), "messages": len(seq)}, sig0)
+            continue
+        ref = HttpRef("2")
+        nontriv = False
+        target = res["target"]
+        push_allowed_here = case.get("enable_push") is not False and target % 2 == 1
+        expect_promised = 2 + 2 * (1 if case.get("on_pushed") else 0)
+        for k, ((cls, m), o) in enumerate(zip(seq, res["steps"])):
+            want = ref.judge(m)
+            raised = o["error"] is not None
+            sig = {**sig0, "msg": cls, "state": ref.st}
+            cs = {**case, "at": k}
+            ctx.count("wire.2.verdict", {None: "unspecified", True: "valid", False: "invalid"}[want])
+            if want is False:
+                nontriv = True
+                if not raised:
+                    ctx.violation("invalid_accepted", cs, o, sig)
+            if want is True and raised:
+                ctx.violation("valid_rejected", cs, o, sig)
+            if raised and (o["wrote"] or o["promises"] or o["instances"]):
+                ctx.violation("rejected_wrote_to_wire", cs, o, sig)
+            if o["parse_error"]:
+                ctx.violation("wire_not_a_valid_prefix", cs, o, sig)
+                break
+            if m["type"] == "http.response.push" and not raised:
+                ctx.count("wire.2.push", "performed" if push_allowed_here else ("client_disabled_push" if target % 2 == 1 else "pushed_from_pushed_stream"))
+                if not push_allowed_here:
+                    if o["wrote"] or o["promises"] or o["instances"]:
+                        ctx.violation("refused_push_wrote_to_wire", cs, o, sig)
+                else:
+                    # what the model's stream hands to the protocol for this message is what the PUSH_PROMISE must carry
+                    mev = next((e for e in ((mo[k]["events"] if mo and k < len(mo) else None) or []) if e[0] == "push"), None)
+                    app = [[n.decode("latin1"), v.decode("latin1")] for n, v in m["headers"]]
+                    ok = (len(o["promises"]) == 1 and o["promises"][0]["parent"] == target and o["promises"][0]["promised"] == expect_promised
+                          and o["instances"] == [expect_promised])
+                    if ok:
+                        hs = o["promises"][0]["headers"]
+                        sc = res["scopes"].get(expect_promised) or {}
+                        want_head = [[":method", "GET"], [":path", m["path"]], [":scheme", "http"], [":authority", "x"]]
+                        ok = (hs[:4] == want_head and _app_headers_then_server([[n.lower(), v] for n, v in hs[4:]], [[n.strip().lower(), v.strip()] for n, v in app])
+                              and sc.get("method") == "GET" and sc.get("raw_path") == m["path"].split("?")[0]
+                              and (mev is None or [[n.lower(), v] for n, v in hs[2:2 + len(mev[2])]] == [[n.lower(), v] for n, v in mev[2]]))
+                    if not ok:
+                        ctx.violation("push_promise_differs", cs, {"step": o, "model_event": mev}, sig)
+                    expect_promised += 2
+            if m["type"] == "http.response.early_hint" and not raised:
+                heads = [f for f in o["frames"] if f[0] == "HeadersFrame" and f[1] == target]
+                if len(heads) != 1 or o["promises"] or o["instances"]:
+                    ctx.violation("early_hint_not_one_interim_head", cs, o, sig)
+            ref.advance(m, o["state"], not raised, want)
+            if mo is not None and k < len(mo) and (mo[k]["error"], mo[k]["state"]) != (o["error"], o["state"]):
+                ctx.disagree("stream.http/wire", cs, mo[k], o)
+                break
+        # everything the client decoded: no CR / LF / NUL in any header name or value, one final head per stream, the response intact
+        for sid, hl in res["heads"].items():
+            for _, hs in hl:
+                if any(ord(c) in CTL for n, v in hs for c in n + v):
+                    ctx.violation("ctl_on_wire", case, {"sid": sid, "headers": hs}, sig0)
+            finals = [hs for _, hs in hl if any(n == ":status" and not v.startswith("1") for n, v in hs)]
+            if len(finals) > 1:
+                ctx.violation("two_final_heads", case, {"sid": sid, "heads": hl}, sig0)
+        for p_ in res["promises"]:
+            if any(ord(c) in CTL for n, v in p_["headers"] for c in n + v):
+                ctx.violation("ctl_on_wire", case, p_, sig0)
+        if res["parse_error"]:
+            ctx.violation("wire_not_a_valid_prefix", case, res["parse_error"], sig0)
+        else:
+            st = res["streams"].get(target) or {}
+            finals = [hs for _, hs in res["heads"].get(target, []) if any(n == ":status" and not v.startswith("1") for n, v in hs)]
+            app = [[n.decode(), v.decode()] for n, v in OKH]
+            if not (st.get("status") == 200 and st.get("ended") and st.get("data") == len(WIRE_BODY[case["pre"]]) and len(finals) == 1
+                    and _app_headers_then_server(finals[0][1:], app)):
+                ctx.violation("response_not_intact", case, {"sid": target, "client": st, "heads": res["heads"].get(target)}, sig0)
+            for sid in res["instances"]:
+                st2 = res["streams"].get(sid) or {}
+                if sid != target and not (st2.get("status") == 200 and st2.get("ended") and st2.get("data") == len(b"sid%d" % sid)):
+                    ctx.violation("response_not_intact", case, {"sid": sid, "client": st2, "which": "other stream"}, sig0)
+        if nontriv:
+            ctx.distinct(["wire", "2", case["pre"], case["focus"], case.get("enable_push"), bool(case.get("on_pushed"))])
+        ctx.sample(case, cap=8)
+        if model is not None:
+            ctx.disagreements_checked += 1
+    # ---- HTTP/1 ----
+    runs1 = []
+    for case in h1cases:
+        version = case["version"]
+        pre = [_msg(k, version) for k in WIRE_PRES[case["pre"]]]
+        ops: List[Tuple[str, dict]] = list(pre)
+        for f in case["focus"]:
+            ops.append(("event:info", INFO_EVENT) if f == "event:info" else _msg(f, version))
+        st = {"REQUEST": "REQUEST", "RESPONSE": "RESPONSE", "RESPONSE+chunk": "RESPONSE", "CLOSED": "CLOSED"}[case["pre"]]
+        ops += _completion(st, version, False)
+        res = S.run(drive_h1_wire(version, [({"send": m} if "event" not in m else m) for _, m in ops], bool(case.get("second"))))
+        runs1.append((case, ops, res))
+    init1 = {v: {"method": "GET", "version": v, "scheme": "http", "headers": WIRE_REQ_HEADERS} for v in ("1.0", "1.1")}
+    model1 = ctx.model([S.http_model_req(init1[c["version"]], [{"send": m} for _, m in ops if "event" not in m]) for c, ops, _ in runs1])
+    for i, (case, ops, res) in enumerate(runs1):
+        ctx.evaluations += 1
+        version = case["version"]
+        ctx.count(f"wire.{version}.context", case["pre"])
+        sig0 = {"family": "wire", "version": version}
+        mo = model1[i].get("ok") if model1 is not None else None
+        ref = HttpRef(version)
+        nontriv = False
+        j = 0
+        for k, ((cls, m), o) in enumerate(zip(ops, res["steps"])):
+            cs = {**case, "at": k}
+            raised = o["error"] is not None
+            if "event" in m:
+                # the protocol is handed the event an HTTP stream emits for early hints: HTTP/1 has no use for it, nothing may be
+                # written for it and nothing raised (HC.Proto.H11.httpStreamSend: `.info _ _ => (st, [], false)`)
+                ctx.count(f"wire.{version}.info_event", f"in {ref.st}")
+                nontriv = True
+                if raised:
+                    ctx.violation("informational_event_raised", cs, o, {**sig0, "state": ref.st})
+                if o["wrote"] or o["up_closed"] and not (k and res["steps"][k - 1]["up_closed"]):
+                    ctx.violation("informational_event_wrote_to_wire", cs, o, {**sig0, "state": ref.st})
+                continue
+            want = ref.judge(m)
+            sig = {**sig0, "msg": cls, "state": ref.st}
+            ctx.count(f"wire.{version}.verdict", {None: "unspecified", True: "valid", False: "invalid"}[want])
+            if want is False:
+                nontriv = True
+                if not raised:
+                    ctx.violation("invalid_accepted", cs, o, sig)
+            if want is True and raised:
+                ctx.violation("valid_rejected", cs, o, sig)
+            if raised and o["wrote"]:
+                ctx.violation("rejected_wrote_to_wire", cs, o, sig)
+            ref.advance(m, o["state"], not raised, want)
+            if mo is not None and j < len(mo) and (mo[j]["error"], mo[j]["state"]) != (o["error"], o["state"]):
+                ctx.disagree("stream.http/wire", cs, mo[j], o)
+                break
+            j += 1
+        # the whole byte stream, parsed by an independent client: exactly the response the accepted messages describe, no interim head
+        p = C.parse_h1(res["out"], ["GET", "GET"] if res["second"] else ["GET"], server_closed=res["up_closed"])
+        finals = [r for r in p["responses"] if not r.get("informational")]
+        app = [[n.decode(), v.decode()] for n, v in OKH]
+        if any(r.get("informational") for r in p["responses"]):
+            ctx.violation("interim_head_on_http1", case, p["responses"], sig0)
+        if any(c in CTL for c in res["out"].split(b"\r\n\r\n", 1)[0].replace(b"\r\n", b"")):
+            ctx.violation("ctl_on_wire", case, res["out"][:300], sig0)
+        ok = (p["error"] is None and len(finals) == (2 if res["second"] else 1) and finals[0]["status"] == 200 and finals[0]["complete"]
+              and finals[0]["body"] == WIRE_BODY[case["pre"]].decode() and _app_headers_then_server(finals[0]["headers"], app, SERVER_HEADERS + ("connection", "transfer-encoding")))
+        if ok and res["second"]:
+            ok = finals[1]["status"] == 200 and finals[1]["complete"] and finals[1]["body"] == "second" and finals[1]["headers"][:1] == [["x-second", "1"]]
+        if case.get("second") and version == "1.1" and not res["second"]:
+            ok = False          # the connection must still be usable for the next request
+        if not ok:
+            ctx.violation("response_not_intact", case, {"parse": p, "out": res["out"][:400], "second": res["second"]}, sig0)
+        if nontriv:
+            ctx.distinct(["wire", version, case["pre"], case["focus"], bool(case.get("second"))])
+        ctx.sample(case, cap=10)
+        if model1 is not None:
+            ctx.disagreements_checked += 1
+
+
 def _sequences(ctx: Ctx, alphabet, full_len: int, sample_lens: Dict[int, int]) -> List[list]:
     seqs: List[list] = []
     for n in range(1, full_len + 1):
@@ -402,9 +855,14 @@ def run(ctx: Ctx) -> None:
         # every kind of handshake: what websocket.accept may name depends on what the client offered
         for offer in WS_OFFERS:
             check_ws(ctx, version, _sequences(ctx, ws_alphabet(), full, samples if offer == "offer" else {n: k // 4 for n, k in samples.items()}), offer)
+    if WIRE_FAMILY:
+        check_wire(ctx, gen_wire(ctx))
 
 
 def replay(ctx: Ctx, case: dict) -> None:
+    if case["family"] == "wire":
+        check_wire(ctx, [{k: v for k, v in case.items() if k != "at"}])
+        return
     alpha = dict(http_alphabet(case["version"]) if case["family"] == "http" else ws_alphabet())
     seq = [(k, alpha[k]) for k in case["seq"]]
     if case["family"] == "http":
